@@ -135,7 +135,7 @@ func (u *Unit) atLoopHeader(st *State, fr *Frame, lp *loop, b, pred *ssa.BasicBl
 	if u.Cfg.ForceBounded > 0 {
 		mode, n = "bounded", u.Cfg.ForceBounded
 	}
-	if u.Cfg.QuickLoopCap > 0 && mode == "unroll" && n > u.Cfg.QuickLoopCap && !auto {
+	if u.Cfg.QuickLoopCap > 0 && mode == "unroll" && n > u.Cfg.QuickLoopCap && n > 8 && !auto {
 		// quick tier: count-bounded loops (<= 16 leases / keys / entries) are
 		// explored up to the cap only and reported as bounded; the thorough tier
 		// unrolls them completely with the unwinding obligation
